@@ -21,6 +21,8 @@ MANIFEST = dict(
     engines=[dict(name="E-bb", path="vlib/lsp.py + checks/c01.py + coq/extract/eng_server.ml",
                   kind_free_text="black box: real gold-lang-lsp --stdio driven by a Python client; model: extracted Server.run_server")],
 )
+MANIFEST["text"] += ' Fourth session: identical requests in flight followed by a notification about their document (scripts of kind twins).'
+
 ASSUMPTIONS = [
     "schema-valid params only (a JSON shape error is a client bug: the server panics by design on ExtractError::JsonError)",
     "lsp-server 0.7 handle_shutdown / stdio transport behave as documented",
